@@ -311,5 +311,19 @@ def evaluate(inp):
     return Verdict(nontrivial=nontrivial, outcome='%d/%d/%d' % (len(mol['atoms']), len(inp['comps']), len(aa)))
 
 
+def classify(viol, finding):
+    """C01-K1: a cut bond at an aromatic nitrogen written with its hydrogen ([nH])"""
+    sig = finding['signature']
+    if viol['cls'] not in sig['cls_in']:
+        return False
+    inp = viol['input']
+    mol = inp.get('mol') or {}
+    nh = set(mol.get('arom_h') or ())
+    if not nh or 'comps' not in inp:
+        return False
+    owner = {a: i for i, c in enumerate(inp['comps']) for a in c}
+    return any((a in nh or b in nh) and owner[a] != owner[b] for a, b, _ in mol['bonds'])
+
+
 def sanity(total, tier):
     return ['fewer than 20 distinct outcomes'] if len(total.outcomes) < 20 else []
